@@ -680,3 +680,124 @@ def gen_reader_opts():
 
 
 GENERATORS.append(gen_reader_opts)
+
+
+# ------------------------------------------------------------------ round 2: what analyzers keep between calls / whether they look at memory layout
+STATE_FILES = ['nitime/analysis/base.py', 'nitime/analysis/spectral.py', 'nitime/analysis/coherence.py', 'nitime/analysis/correlation.py',
+               'nitime/analysis/normalization.py', 'nitime/analysis/snr.py', 'nitime/analysis/event_related.py', 'nitime/analysis/granger.py']
+PROBE_FILES = STATE_FILES + [READER_FILE]
+CTOR_LIKE = ('__init__', 'set_input', 'reset', '__new__')
+MEM_ATTRS = ('base', 'strides', 'ctypes', '__array_interface__', '__array_struct__')
+MEM_FUNCS = ('shares_memory', 'may_share_memory', 'byte_bounds', 'id', 'as_strided')
+
+
+def gen_analyzer_state():
+    """From every class of nitime/analysis/*.py (and, for the memory probes, the reader module):
+    (1) `plainStores`: statements OUTSIDE `__init__` / `set_input` / `reset` that create, rebind or delete an attribute of
+        `self` (`self.x = …`, `self.x op= …`, `del self.x`, `setattr(self, …)`, `delattr(self, …)`, `object.__setattr__`), or
+        touch the instance dict (`self.__dict__`, `vars(self)`): state that `reset()` (which removes the one-time attributes
+        only) does not clear;
+    (2) `attrItemWrites`: statements outside `__init__` that write INTO an object held in an attribute
+        (`self.method['Fs'] = …`, `self.x.update(…)`, `self.x[...] op= …`);
+    (3) `setInputWithoutReset`: classes that define `set_input` without calling `BaseAnalyzer.set_input(self, …)` /
+        `super().set_input(…)` / `self.reset()` in it;
+    (4) `memoryProbes`: reads of `.base` / `.strides` / `.ctypes` / `__array_interface__`, calls of `shares_memory`,
+        `may_share_memory`, `byte_bounds`, `id`, `as_strided`, and `is` / `is not` comparisons whose operands are not
+        the constants None / True / False: a result that may depend on WHERE its arguments live rather than on their values."""
+    plain, items, noreset, probes = [], [], [], []
+    esc = lambda s: s.replace('\\', '/').replace('"', "'").replace('\n', ' ')      # noqa
+
+    def is_self(n):
+        return isinstance(n, ast.Name) and n.id == 'self'
+
+    for p in PROBE_FILES:
+        if not os.path.exists(os.path.join(tr.REPO, p)):
+            continue
+        tree = tr.parse(p)
+        short = os.path.basename(p)
+        # (4) memory probes: whole file
+        owner = {}
+        for cls in [n for n in ast.walk(tree) if isinstance(n, ast.ClassDef)]:
+            for fn in [n for n in cls.body if isinstance(n, (ast.FunctionDef, ast.AsyncFunctionDef))]:
+                for n in ast.walk(fn):
+                    owner[id(n)] = '%s.%s' % (cls.name, fn.name)
+        for fn in [n for n in tree.body if isinstance(n, (ast.FunctionDef, ast.AsyncFunctionDef))]:
+            for n in ast.walk(fn):
+                owner.setdefault(id(n), fn.name)
+        for n in ast.walk(tree):
+            where = '%s %s' % (short, owner.get(id(n), '<module>'))
+            if isinstance(n, ast.Attribute) and n.attr in MEM_ATTRS and isinstance(n.ctx, ast.Load):
+                probes.append('%s: .%s of %s' % (where, n.attr, src_text(n.value)[:40]))
+            if isinstance(n, ast.Constant) and n.value in MEM_ATTRS and isinstance(n.value, str):
+                probes.append('%s: \'%s\'' % (where, n.value))
+            if isinstance(n, ast.Call):
+                f = n.func
+                nm = f.attr if isinstance(f, ast.Attribute) else (f.id if isinstance(f, ast.Name) else None)
+                if nm in MEM_FUNCS:
+                    probes.append('%s: %s(...)' % (where, nm))
+            if isinstance(n, ast.Compare) and any(isinstance(o, (ast.Is, ast.IsNot)) for o in n.ops):
+                sides = [n.left] + list(n.comparators)
+                if not any(isinstance(x, ast.Constant) and (x.value is None or x.value is True or x.value is False) for x in sides):
+                    probes.append('%s: %s' % (where, src_text(n)[:60]))
+        if p not in STATE_FILES:
+            continue
+        for cls in [n for n in tree.body if isinstance(n, ast.ClassDef)]:
+            for fn in [n for n in cls.body if isinstance(n, (ast.FunctionDef, ast.AsyncFunctionDef))]:
+                where = '%s.%s' % (cls.name, fn.name)
+                if fn.name == 'set_input':
+                    ok = False
+                    for n in ast.walk(fn):
+                        if isinstance(n, ast.Call) and isinstance(n.func, ast.Attribute) and n.func.attr in ('set_input', 'reset'):
+                            ok = True
+                    if not ok:
+                        noreset.append(where)
+                for n in ast.walk(fn):
+                    tg = []
+                    if isinstance(n, ast.Assign):
+                        tg = n.targets
+                    elif isinstance(n, (ast.AugAssign, ast.AnnAssign)):
+                        tg = [n.target]
+                    elif isinstance(n, ast.Delete):
+                        tg = n.targets
+                    elif isinstance(n, (ast.For, ast.AsyncFor)):
+                        tg = [n.target]
+                    elif isinstance(n, (ast.With, ast.AsyncWith)):
+                        tg = [i.optional_vars for i in n.items if i.optional_vars is not None]
+                    for t in tg:
+                        for s_ in ast.walk(t):
+                            if isinstance(s_, ast.Attribute) and isinstance(s_.ctx, (ast.Store, ast.Del)) and is_self(s_.value):
+                                if fn.name not in CTOR_LIKE:
+                                    plain.append('%s: %s self.%s' % (where, 'del' if isinstance(s_.ctx, ast.Del) else 'store', s_.attr))
+                            if isinstance(s_, ast.Subscript) and isinstance(s_.ctx, (ast.Store, ast.Del)):
+                                b = s_.value
+                                while isinstance(b, (ast.Subscript, ast.Attribute)) and not (isinstance(b, ast.Attribute) and is_self(b.value)):
+                                    b = b.value
+                                if isinstance(b, ast.Attribute) and is_self(b.value) and fn.name != '__init__':
+                                    items.append('%s: %s' % (where, src_text(s_)[:50]))
+                    if isinstance(n, ast.Attribute) and n.attr == '__dict__' and is_self(n.value):
+                        plain.append('%s: self.__dict__' % where)
+                    if isinstance(n, ast.Call):
+                        f = n.func
+                        if isinstance(f, ast.Name) and f.id in ('setattr', 'delattr', 'vars') and n.args and is_self(n.args[0]) and fn.name not in CTOR_LIKE:
+                            plain.append('%s: %s(self, ...)' % (where, f.id))
+                        if isinstance(f, ast.Attribute) and f.attr in ('__setattr__', '__delattr__') and fn.name not in CTOR_LIKE:
+                            plain.append('%s: %s' % (where, src_text(f)[:40]))
+                        if isinstance(f, ast.Attribute) and f.attr in MUTATORS and isinstance(f.value, ast.Attribute) and is_self(f.value.value) \
+                                and fn.name != '__init__':
+                            items.append('%s: self.%s.%s(...)' % (where, f.value.attr, f.attr))
+
+    def lst(name, doc, xs):
+        return ['/-- %s -/' % doc, 'def %s : List String :=\n  [%s]' % (name, ',\n   '.join('"%s"' % esc(x) for x in xs)), '']
+    lines = ['-- GENERATED by harness/translate_c15.py from nitime/analysis/*.py and nitime/fmri/io.py. DO NOT EDIT.',
+             'namespace Nitime.Generated.AnalyzerState', '']
+    lines += lst('plainStores', 'attributes of `self` created / rebound / deleted outside `__init__`, `set_input`, `reset`; uses of the instance dict', sorted(set(plain)))
+    lines += lst('attrItemWrites', 'writes INTO an object held in an attribute, outside `__init__`', sorted(set(items)))
+    lines += lst('setInputWithoutReset', '`set_input` overrides that neither call the base `set_input` nor `reset()`', sorted(set(noreset)))
+    lines += lst('memoryProbes', 'places where a result may depend on where an array lives (base / strides / address / identity)', sorted(set(probes)))
+    lines += ['end Nitime.Generated.AnalyzerState', '']
+    echo = {'plainStores': sorted(set(plain)), 'attrItemWrites': sorted(set(items)), 'setInputWithoutReset': sorted(set(noreset)),
+            'memoryProbes': sorted(set(probes))}
+    return 'AnalyzerState.lean', '\n'.join(lines), echo
+
+
+GENERATORS.append(gen_analyzer_state)
